@@ -129,8 +129,11 @@ class UDPMessageSerializer:
             # a reasonable default
             if fill_missing:
                 var_type = template_var.type
+                # Fixed-length var, width is prescribed by the template rather than the type
+                if var_type == MsgType.MVT_FIXED:
+                    var_data = RawBytes(b"\x00" * template_var.size)
                 # Variable-length var, just leave it empty.
-                if var_type.size == -1:
+                elif var_type.size == -1:
                     var_data = b""
                 else:
                     var_data = RawBytes(b"\x00" * var_type.size)
